@@ -334,3 +334,11 @@ JOBS['C07'] = [
     {'name': 'motions', 'harness': 'c07_mot.c', 'units': 'ALL', 'defs': {'quick': {'NMOT': 39}, 'thorough': {'LL': 2, 'NMOT': 39, 'SYMTEXT': 1, 'NCNT': 3}}, 'heavy': True,
      'expect_reach': ['end', 'asserted'], 'timeout': {'quick': 290, 'thorough': 3000}, 'max_steps': 60000000, 'validate': {'quick': 8, 'thorough': 16}},
 ]
+
+# ---------------------------------------------------------------- CBMC cross-checks on leaf kernels (C source, SAT back end)
+CBMC['C16'] = [{'name': 'uc_decoders', 'harness': 'cbmc/cb_uc.c', 'units': ['uc'], 'function': 'cb_uc',
+                'defs': {'quick': {'N': 5}, 'thorough': {'N': 6}}, 'unwind': {'quick': 7, 'thorough': 8}, 'timeout': {'quick': 250, 'thorough': 1500}}]
+CBMC['C17'] = [{'name': 'range_table_bisection', 'harness': 'cbmc/cb_find.c', 'units': [], 'function': 'cb_find',
+                'defs': {}, 'unwind': 400, 'tiers': ['thorough'], 'timeout': {'quick': 250, 'thorough': 2400}}]
+CBMC['C01'] = [{'name': 'sbuf_capacity_step', 'harness': 'cbmc/cb_sbuf.c', 'units': [], 'function': 'cb_sbuf',
+                'defs': {}, 'unwind': 2, 'timeout': {'quick': 250, 'thorough': 1500}}]
